@@ -91,8 +91,7 @@ namespace igris
         {
             for (auto &obj : lst)
             {
-                new (&_data[m_size]) T(obj);
-                ++m_size;
+                push_back(obj);
             }
         }
 
